@@ -20,11 +20,9 @@ import (
 	"errors"
 	"fmt"
 	"reflect"
-	"runtime/debug"
 	"strings"
 
 	"github.com/cloudwego/eino/internal/generic"
-	"github.com/cloudwego/eino/internal/safe"
 	"github.com/cloudwego/eino/schema"
 )
 
@@ -587,7 +585,8 @@ func fieldMap(mappings []*FieldMapping, allowMapKeyNotFound bool) func(any) (map
 						return nil, err
 					}
 
-					panic(safe.NewPanicErr(err, debug.Stack()))
+					// nil pointers and interface values on the path are only known at request time
+					return nil, err
 				}
 
 				if i < len(fromPath)-1 {
@@ -620,6 +619,9 @@ func takeOne(inputValue reflect.Value, inputType reflect.Type, from string) (tak
 		return f.Interface(), f.Type(), nil
 	case reflect.Ptr, reflect.Interface:
 		inputValue = inputValue.Elem()
+		if inputValue.Kind() != reflect.Struct {
+			return nil, nil, fmt.Errorf("field mapping from a struct field, but input is a nil pointer or does not point to a struct, type= %v", inputType)
+		}
 		fallthrough
 	case reflect.Struct:
 		f, err = checkAndExtractFromField(from, inputValue)
@@ -629,6 +631,10 @@ func takeOne(inputValue reflect.Value, inputType reflect.Type, from string) (tak
 
 		return f.Interface(), f.Type(), nil
 	default:
+		if !inputValue.IsValid() {
+			return nil, nil, fmt.Errorf("field mapping from a field of a nil value, type= %v", inputType)
+		}
+
 		if inputType.Kind() == reflect.Interface {
 			return nil, nil, &errInterfaceNotValidForFieldMapping{
 				interfaceType: inputType,
